@@ -390,6 +390,10 @@ namespace ip {
 				boost::system::error_code(error::address_family_not_supported))));
 			return;
 		}
+		// on a route without any queue the SYN+ACK arrives before
+		// internal_connect() returns: the handler has to be in place by then
+		m_channel.reset();
+		m_connect_handler = std::move(h);
 		m_channel = m_io_service.internal_connect(this, target, ec);
 		m_mss = m_io_service.get_path_mtu(m_bound_to.address(), target.address());
 		m_cwnd = m_mss * 2;
@@ -398,11 +402,10 @@ namespace ip {
 			m_channel.reset();
 			// TODO: ask the policy object what the round-trip to this endpoint is
 			m_connect_timer.expires_after(chrono::milliseconds(50));
-			m_connect_timer.async_wait(aux::make_malloc(std::bind(std::move(h), ec)));
+			m_connect_timer.async_wait(aux::make_malloc(std::bind(std::move(m_connect_handler), ec)));
+			m_connect_handler = nullptr;
 			return;
 		}
-
-		m_connect_handler = std::move(h);
 
 		// the acceptor socket will call internal_connect_complete once the
 		// connection is established
@@ -849,7 +852,7 @@ namespace ip {
 			{
 				// the connect this SYN+ACK answers was cancelled, or has been
 				// replaced by another one
-				if (!m_connect_handler || p.channel != m_channel) return;
+				if (!m_connect_handler || (m_channel && p.channel != m_channel)) return;
 
 				boost::system::error_code ec;
 				post(m_io_service, aux::make_malloc(std::bind(std::move(m_connect_handler), ec)));
